@@ -62,10 +62,18 @@ pub struct CutCase {
     /// the same poll of the receive queue as other peers' pending messages)
     #[serde(default)]
     pub burst: usize,
+    /// after the tail a NEW connection announcing the victim's identity joins (a peer that
+    /// restarts): it must be admitted and work like any healthy peer, whether or not the socket
+    /// has noticed the end of the old connection
+    #[serde(default)]
+    pub comeback: bool,
 }
 
+pub const VICTIM_ID: &[u8] = b"victim-identity";
+
 pub fn victim_stream(kind: Kind, msgs: &[Vec<usize>]) -> (Vec<u8>, usize, Vec<usize>, Vec<Option<Frames>>) {
-    let mut s = refcodec::handshake_bytes(kind.a_compatible_peer(), None);
+    // the victim announces a fixed identity, so that it can come back under it
+    let mut s = refcodec::handshake_bytes(kind.a_compatible_peer(), Some(VICTIM_ID));
     let hs = s.len();
     let mut ends = vec![];
     let mut expect = vec![];
@@ -583,6 +591,24 @@ pub fn cut_outcome(c: &CutCase) -> Outcome {
             } else if admitted {
                 classes.push("end-never-observed".into());
             }
+            // ---- the victim comes back under its identity
+            let mut comeback_err: Option<String> = None;
+            if c.comeback && kind != Kind::Req {
+                classes.push("victim-comes-back-under-its-identity".into());
+                match simx::attach_raw(&mut sim, s, Some(VICTIM_ID)).await {
+                    Ok((nl, nid)) => {
+                        if admitted && vid.as_deref() != Some(&nid[..]) {
+                            comeback_err = Some(format!("registered under {} instead of the identity it announced", refcodec::brief(&nid)));
+                        } else if let Err(e) = simx::roundtrip_on(&mut sim, s, &nl, &nid, b"comeback", false).await {
+                            comeback_err = Some(e);
+                        }
+                    }
+                    Err(e) => comeback_err = Some(format!("not admitted: {}", e)),
+                }
+            }
+            if let Some(e) = comeback_err {
+                fail!(f, format!("C16/{}/{}/peer-cannot-come-back-under-its-identity", who, ck), "after its connection ended at byte {} (end observed: {}), a new connection announcing the same identity: {}", pos, observed(&victim, errs.len()), e);
+            }
             (f, classes)
         })
     });
@@ -957,7 +983,7 @@ pub fn enumerated() -> Vec<CutCase> {
                     if cut == CutKind::ProtocolError && pos < victim_stream(kind, &msgs).1 {
                         continue;
                     }
-                    for (split, burst) in [(0usize, 0usize), (64, 0), (0, 2)] {
+                    for (split, burst, comeback) in [(0usize, 0usize, false), (64, 0, false), (0, 2, false), (0, 0, true)] {
                         v.push(CutCase {
                             kind,
                             healthy,
@@ -968,6 +994,7 @@ pub fn enumerated() -> Vec<CutCase> {
                             rounds: 1,
                             write_err: if cut == CutKind::Reset { 1 } else { 0 },
                             burst,
+                            comeback,
                         });
                     }
                 }
@@ -983,6 +1010,7 @@ pub fn enumerated() -> Vec<CutCase> {
                     rounds: 1,
                     write_err,
                     burst: 0,
+                    comeback: write_err % 2 == 1,
                 });
             }
         }
@@ -1016,6 +1044,7 @@ pub fn gen_cut(s: &mut Src<'_>) -> CutCase {
         rounds: s.range(0, 3),
         write_err: s.pick(&[0u8, 0, 1, 1, 2, 3]),
         burst: s.pick(&[0usize, 0, 1, 2, 5]),
+        comeback: s.chance(1, 3),
     }
 }
 
@@ -1081,10 +1110,11 @@ pub fn run(ctx: &Ctx) -> (Report, PropertyMeta) {
     health_abs(&mut report, "publish-matching-the-victims-subscription", 300);
     health_abs(&mut report, "cut-protocol-error", 300);
     health_abs(&mut report, "send-in-flight-when-the-peer-dies", 100);
+    health_abs(&mut report, "victim-comes-back-under-its-identity", 300);
 
     let meta = PropertyMeta {
         level: "fault_enumeration",
-        rule: "every socket type with 1..3 healthy raw peers and one victim whose connection ends at an enumerated / generated byte position of its stream (inside the greeting, between greeting and READY, inside READY, between messages, inside flags / size / body, between frames of a multipart message) by orderly close (EOF; writes fail afterwards, or - as with a TCP FIN - still succeed), reset (read error, writes fail), protocol error (the peer stays connected and sends a malformed command at a message boundary) or write-only failure (writes fail with EPIPE, ECONNRESET, ETIMEDOUT or ECONNABORTED), followed by rounds of healthy-peer traffic and application calls (recv until pending; sends that rotate onto / address the victim; REP replies; publishes, including ones matching the victim's subscription; SUB subscription changes). Oracle: (a) every healthy peer's message is still delivered exactly once in order, publishes reach healthy subscribers, successful sends land on healthy peers, and only the victim's COMPLETE messages surface; (b) recv reports at most one error for the event and the socket always reaches quiescence; (c) once the socket has observed the end (a read returned EOF/error or a write failed) no send fails because it was routed to that peer, and ROUTER send to its identity fails; (d) after observation both connection halves the library held are dropped; a connection that ends during the handshake is never admitted and is released. In-flight sends: with a send pending on the victim's closed write window (PUSH/DEALER/REQ/ROUTER/REP) the connection is reset - the send must return (an error), later sends reach healthy peers and both halves are dropped. Real transports: after N connect-handshake-talk-disconnect cycles over TCP and IPC against a long-lived socket of every type the process's open-descriptor count and the runtime's alive-task count are within a constant of their values after 10 cycles. Non-trivial = cut strictly inside a message or inside the handshake; distinct by case".into(),
+        rule: "every socket type with 1..3 healthy raw peers and one victim whose connection ends at an enumerated / generated byte position of its stream (inside the greeting, between greeting and READY, inside READY, between messages, inside flags / size / body, between frames of a multipart message) by orderly close (EOF; writes fail afterwards, or - as with a TCP FIN - still succeed), reset (read error, writes fail), protocol error (the peer stays connected and sends a malformed command at a message boundary) or write-only failure (writes fail with EPIPE, ECONNRESET, ETIMEDOUT or ECONNABORTED), followed by rounds of healthy-peer traffic and application calls (recv until pending; sends that rotate onto / address the victim; REP replies; publishes, including ones matching the victim's subscription; SUB subscription changes). Oracle: (a) every healthy peer's message is still delivered exactly once in order, publishes reach healthy subscribers, successful sends land on healthy peers, and only the victim's COMPLETE messages surface; (b) recv reports at most one error for the event and the socket always reaches quiescence; (c) once the socket has observed the end (a read returned EOF/error or a write failed) no send fails because it was routed to that peer, and ROUTER send to its identity fails; (d) after observation both connection halves the library held are dropped; a connection that ends during the handshake is never admitted and is released. Come-back: in a third of the cases a new connection announcing the victim's identity joins after the tail and must be admitted and exchange traffic like a healthy peer, whether or not the end of the old connection was noticed. In-flight sends: with a send pending on the victim's closed write window (PUSH/DEALER/REQ/ROUTER/REP) the connection is reset - the send must return (an error), later sends reach healthy peers and both halves are dropped. Real transports: after N connect-handshake-talk-disconnect cycles over TCP and IPC against a long-lived socket of every type the process's open-descriptor count and the runtime's alive-task count are within a constant of their values after 10 cycles. Non-trivial = cut strictly inside a message or inside the handshake; distinct by case".into(),
         assumptions: vec![
             "a closed connection is modelled as EOF on reads plus BrokenPipe on writes (a fully closed TCP peer); half-close is not generated".into(),
             "'observed' is measured at the pipe: a read returned the end marker or a write returned the injected error".into(),
